@@ -41,10 +41,11 @@ type FakeNet struct {
 	conns       []*FakeConn // client ends, in dial order
 	pollWorkers int
 	onDial      func(addr string)
+	silent      map[string]bool // connections dialled to these addresses never hear from the server
 }
 
 func newNet() *FakeNet {
-	return &FakeNet{lis: map[string]*FakeLis{}, dials: map[string]int{}, failed: map[string]int{}, live: map[string]int{}, maxLive: map[string]int{}, pollWorkers: 1}
+	return &FakeNet{lis: map[string]*FakeLis{}, dials: map[string]int{}, failed: map[string]int{}, live: map[string]int{}, maxLive: map[string]int{}, pollWorkers: 1, silent: map[string]bool{}}
 }
 
 type fakeSock struct{ n *FakeNet }
@@ -62,6 +63,9 @@ func (s *fakeSock) Dial(addr string) (socket.Conn, error) {
 		return nil, errRefused
 	}
 	cl, sv := NewPipe()
+	if n.silent[addr] {
+		cl.p.blackhole[1] = true
+	}
 	n.dials[addr]++
 	n.live[addr]++
 	if n.live[addr] > n.maxLive[addr] {
